@@ -22,6 +22,7 @@ type File struct {
 	zeros  int // consecutive zero reads delivered
 	atEOF  bool
 	isDir  bool
+	isPipe bool
 	stat   StreamStat
 	closed bool
 	// write side
@@ -116,7 +117,12 @@ func Open(name string) (*File, error) {
 		journal.Faults = append(journal.Faults, "open:"+fsp.OpenErr+":"+name)
 		return nil, &fs.PathError{Op: "open", Path: name, Err: errnoOf(fsp.OpenErr)}
 	}
-	return newReadFile(name, fsp.Data, fsp.Plan), nil
+	f := newReadFile(name, fsp.Data, fsp.Plan)
+	if fsp.Pipe {
+		f.isPipe = true
+		journal.Faults = append(journal.Faults, "open:FIFO:"+name)
+	}
+	return f, nil
 }
 
 // Create replaces os.Create.
@@ -330,6 +336,7 @@ type fileInfo struct {
 	name string
 	size int64
 	dir  bool
+	pipe bool
 }
 
 func (i fileInfo) Name() string { return filepath.Base(i.name) }
@@ -337,6 +344,9 @@ func (i fileInfo) Size() int64  { return i.size }
 func (i fileInfo) Mode() fs.FileMode {
 	if i.dir {
 		return fs.ModeDir | 0o755
+	}
+	if i.pipe {
+		return fs.ModeNamedPipe | 0o600
 	}
 	return 0o644
 }
@@ -351,6 +361,9 @@ func (f *File) Stat() (os.FileInfo, error) {
 	if f.real != nil {
 		return f.real.Stat()
 	}
+	if f.isPipe {
+		return fileInfo{name: f.name, size: 0, pipe: true}, nil
+	}
 	return fileInfo{name: f.name, size: int64(len(f.data)), dir: f.isDir}, nil
 }
 
@@ -362,6 +375,9 @@ func Stat(name string) (os.FileInfo, error) {
 	fsp := lookup(name)
 	if fsp == nil || (fsp.OpenErr != "" && fsp.OpenErr != "EISDIR" && fsp.OpenErr != "EACCES") {
 		return nil, &fs.PathError{Op: "stat", Path: name, Err: syscall.ENOENT}
+	}
+	if fsp.Pipe {
+		return fileInfo{name: name, size: 0, pipe: true}, nil
 	}
 	return fileInfo{name: name, size: int64(len(fsp.Data)), dir: fsp.OpenErr == "EISDIR"}, nil
 }
